@@ -6,7 +6,12 @@ import MirosModel.Gen.Constants
 
 Model: `Miros.Hsm.isIn` / `childState` (faithful to hsm.py `is_in` / `child_state`: the walk
 of the search cursor outward with SEARCH_FOR_SUPER probes), spec: `specIsIn` / `specChild`.
-For every current state and every argument, any tree depth.
+For every current state and every argument, any tree depth, on every chart whose handlers all end
+in `else: temp = parent; return SUPER` (`fall = false`).  The two loops of hsm.py do not check the
+status of the probe: a fall-through state on the way (other than the argument) answers `None`,
+leaves the cursor on itself and is asked again for ever — the model says `Outcome.diverge`
+(`stuck_*` examples at the end), so the queries now return an `Outcome` and the statements read
+"the query ends (`.ok`) with …".
 -/
 namespace Miros.Props.C22
 open Miros.Hsm
@@ -14,60 +19,83 @@ open Miros.Hsm
 theorem encloses_iff (X S : St) : encloses X S = true ↔ X <:+ S := by
   simp [encloses]
 
-theorem isInWalk_spec (X : St) : ∀ (cur : St) (k : Ctx), (isInWalk X cur k).1 = encloses X cur := by
+theorem isInWalk_spec (c : Chart) (hf : ∀ s, c.fall s = false) (X : St) : ∀ (cur : St) (k : Ctx),
+    ∃ k', isInWalk c X cur k = .ok (encloses X cur, k') ∧ actions k'.log = actions k.log := by
   intro cur
   induction cur with
   | nil =>
     intro k
     unfold isInWalk
     by_cases h : ([] : St) = X
-    · subst h; simp [encloses]
+    · subst h; exact ⟨k, by simp [encloses], rfl⟩
     · have : encloses X [] = false := by
         cases X with
         | nil => exact absurd rfl h
         | cons a t => simp [encloses]
-      simp [h, this]
+      exact ⟨k, by simp [h, this], rfl⟩
   | cons a p ih =>
     intro k
     unfold isInWalk
     by_cases h : a :: p = X
-    · subst h; simp [encloses]
-    · simp only [h, if_false]
-      rw [ih]
+    · subst h; exact ⟨k, by simp [encloses], rfl⟩
+    · obtain ⟨k', e, hl⟩ := ih (probe (a :: p) k)
+      refine ⟨k', ?_, by rw [hl]; simp [probe]⟩
+      simp only [h, if_false, hf, Bool.false_eq_true]
+      rw [e]
       have h' : ¬ X = a :: p := fun e => h e.symm
-      rw [Bool.eq_iff_iff, encloses_iff, encloses_iff, List.suffix_cons_iff]
-      simp [h']
+      have : encloses X p = encloses X (a :: p) := by
+        rw [Bool.eq_iff_iff, encloses_iff, encloses_iff, List.suffix_cons_iff]
+        simp [h']
+      rw [this]
+
+/-- everything about `is_in` at once: it ends, answers what the spec says, leaves state and cursor
+where they were, and its calls contain no action -/
+theorem isIn_ok (c : Chart) (hf : ∀ s, c.fall s = false) (cur X : St) :
+    ∃ l, isIn c cur X = .ok (specIsIn cur X, ⟨cur, cur, l⟩) ∧ actions l = [] := by
+  obtain ⟨k', e, hl⟩ := isInWalk_spec c hf X cur { temp := cur, log := [] }
+  exact ⟨k'.log, by simp [isIn, e, specIsIn], by simpa using hl⟩
 
 /-- **C22 (is_in).** `is_in(X)` is true exactly when `X` is the current state or encloses it. -/
-theorem C22_is_in (cur X : St) : (isIn cur X).1 = true ↔ X <:+ cur := by
-  unfold isIn
-  rw [show (isInWalk X cur { temp := cur, log := [] }).1 = encloses X cur from isInWalk_spec X cur _]
-  exact encloses_iff X cur
+theorem C22_is_in (c : Chart) (hf : ∀ s, c.fall s = false) (cur X : St) :
+    ∃ b r, isIn c cur X = .ok (b, r) ∧ (b = true ↔ X <:+ cur) := by
+  obtain ⟨l, e, _⟩ := isIn_ok c hf cur X
+  exact ⟨_, _, e, encloses_iff X cur⟩
 
-theorem C22_is_in_spec (cur X : St) : (isIn cur X).1 = specIsIn cur X := by
-  unfold isIn specIsIn
-  exact isInWalk_spec X cur _
+theorem C22_is_in_spec (c : Chart) (hf : ∀ s, c.fall s = false) (cur X : St) :
+    ∃ r, isIn c cur X = .ok (specIsIn cur X, r) := by
+  obtain ⟨l, e, _⟩ := isIn_ok c hf cur X
+  exact ⟨_, e⟩
 
-theorem childWalk_spec (P : St) : ∀ (x child : St) (k : Ctx), x ≠ P →
-    (childWalk P x child k).1 = childBelow P x := by
+theorem childWalk_spec (c : Chart) (hf : ∀ s, c.fall s = false) (P : St) :
+    ∀ (x child : St) (k : Ctx), x ≠ P →
+    ∃ k', childWalk c P x child k = .ok (childBelow P x, k') ∧ actions k'.log = actions k.log := by
   intro x
   induction x with
-  | nil => intro child k h; simp [childWalk, childBelow, h]
+  | nil => intro child k h; exact ⟨k, by simp [childWalk, childBelow, h], rfl⟩
   | cons a p ih =>
     intro child k h
     unfold childWalk childBelow
-    simp only [h, if_false]
+    simp only [h, if_false, hf, Bool.false_eq_true]
     by_cases hp : p = P
-    · subst hp; unfold childWalk; simp
-    · simp only [hp, if_false]; exact ih (a :: p) _ hp
+    · subst hp; unfold childWalk; exact ⟨probe (a :: p) k, by simp, by simp [probe]⟩
+    · obtain ⟨k', e, hl⟩ := ih (a :: p) (probe (a :: p) k) hp
+      exact ⟨k', by simp only [hp, if_false]; exact e, by rw [hl]; simp [probe]⟩
+
+/-- everything about `child_state` at once -/
+theorem childState_ok (c : Chart) (hf : ∀ s, c.fall s = false) (cur P : St) :
+    ∃ l, childState c cur P = .ok (specChild cur P, ⟨cur, cur, l⟩) ∧ actions l = [] := by
+  unfold childState specChild
+  by_cases h : cur = P
+  · subst h; unfold childWalk; exact ⟨[], by simp, rfl⟩
+  · obtain ⟨k', e, hl⟩ := childWalk_spec c hf P cur cur { temp := cur, log := [] } h
+    exact ⟨k'.log, by simp only [h, if_false, e], by simpa using hl⟩
 
 /-- **C22 (child_state).** `child_state(P)` returns what the spec says: the current state when
 `P` is current, else the state just below `P` on the active path, and fails (`none`) otherwise. -/
-theorem C22_child_spec (cur P : St) : (childState cur P).1 = specChild cur P := by
-  unfold childState specChild
-  by_cases h : cur = P
-  · subst h; unfold childWalk; simp
-  · simp only [h, if_false]; exact childWalk_spec P cur cur _ h
+theorem C22_child_spec (c : Chart) (hf : ∀ s, c.fall s = false) (cur P : St) :
+    ∃ r, childState c cur P = .ok (specChild cur P, r) := by
+  obtain ⟨l, e, _⟩ := childState_ok c hf cur P
+  exact ⟨_, e⟩
 
 /-- characterisation of the spec's answer: a child `ch` of `P` on the active path -/
 theorem childBelow_some (P : St) : ∀ (x ch : St), childBelow P x = some ch →
@@ -100,9 +128,7 @@ theorem childBelow_none (P : St) : ∀ x : St, childBelow P x = none → ¬ (P <
       · exact h2 e
       · exact ih h ⟨hs, fun e => hp e.symm⟩
 
-/-- **C22 (child_state fails exactly when `P` does not enclose the current state).** -/
-theorem C22_child_fails_iff (cur P : St) : (childState cur P).1 = none ↔ ¬ P <:+ cur := by
-  rw [C22_child_spec]
+theorem specChild_none_iff (cur P : St) : specChild cur P = none ↔ ¬ P <:+ cur := by
   unfold specChild
   by_cases h : cur = P
   · subst h; simp
@@ -123,57 +149,77 @@ theorem C22_child_fails_iff (cur P : St) : (childState cur P).1 = none ↔ ¬ P 
           simp at h3; subst h3
           exact List.IsSuffix.trans (List.suffix_cons b t) h1
 
+/-- **C22 (child_state fails exactly when `P` does not enclose the current state).** -/
+theorem C22_child_fails_iff (c : Chart) (hf : ∀ s, c.fall s = false) (cur P : St) :
+    ∃ o r, childState c cur P = .ok (o, r) ∧ (o = none ↔ ¬ P <:+ cur) := by
+  obtain ⟨l, e, _⟩ := childState_ok c hf cur P
+  exact ⟨_, _, e, specChild_none_iff cur P⟩
+
 /-- **C22 (purity).** Neither query moves the chart: current state and search cursor are what
 they were, so (the processor being a function of chart, switches and current state) every later
 step behaves identically. -/
-theorem C22_pure (cur X : St) :
-    (isIn cur X).2.state = cur ∧ (isIn cur X).2.temp = cur ∧
-    (childState cur X).2.state = cur ∧ (childState cur X).2.temp = cur := by
-  simp [isIn, childState]
+theorem C22_pure (c : Chart) (hf : ∀ s, c.fall s = false) (cur X : St) :
+    (∃ b r, isIn c cur X = .ok (b, r) ∧ r.state = cur ∧ r.temp = cur) ∧
+    (∃ o r, childState c cur X = .ok (o, r) ∧ r.state = cur ∧ r.temp = cur) := by
+  obtain ⟨l1, e1, _⟩ := isIn_ok c hf cur X
+  obtain ⟨l2, e2, _⟩ := childState_ok c hf cur X
+  exact ⟨⟨_, _, e1, rfl, rfl⟩, ⟨_, _, e2, rfl, rfl⟩⟩
 
 /-- the only handler invocations a query makes are SEARCH_FOR_SUPER probes (no action runs) -/
-theorem C22_only_probes (cur X : St) : actions (isIn cur X).2.log = [] ∧ actions (childState cur X).2.log = [] := by
-  have h1 : ∀ (x : St) (k : Ctx), actions (isInWalk X x k).2.log = actions k.log := by
-    intro x
-    induction x with
-    | nil => intro k; unfold isInWalk; split <;> simp
-    | cons a p ih =>
-      intro k; unfold isInWalk
-      split
-      · simp
-      · simp only []; rw [ih]; simp [probe]
-  have h2 : ∀ (x ch : St) (k : Ctx), actions (childWalk X x ch k).2.log = actions k.log := by
-    intro x
-    induction x with
-    | nil => intro ch k; unfold childWalk; split <;> simp
-    | cons a p ih =>
-      intro ch k; unfold childWalk
-      split
-      · simp
-      · simp only []; rw [ih]; simp [probe]
-  constructor
-  · simp [isIn, h1]
-  · simp [childState, h2]
+theorem C22_only_probes (c : Chart) (hf : ∀ s, c.fall s = false) (cur X : St) :
+    (∃ b r, isIn c cur X = .ok (b, r) ∧ actions r.log = []) ∧
+    (∃ o r, childState c cur X = .ok (o, r) ∧ actions r.log = []) := by
+  obtain ⟨l1, e1, h1⟩ := isIn_ok c hf cur X
+  obtain ⟨l2, e2, h2⟩ := childState_ok c hf cur X
+  exact ⟨⟨_, _, e1, h1⟩, ⟨_, _, e2, h2⟩⟩
 
 /-- **C22 (state_name).** With the spy decorator every probe renames the chart; the queries
 re-name it after the current state (switch `queryRestoresName`, generated from the source). -/
-theorem C22_name_restored (spied : Bool) (before cur X : St) :
-    Miros.Instr.nameAfterQuery Miros.Gen.queryRestoresName spied before cur (isIn cur X).2.log = cur ∧
-    Miros.Instr.nameAfterQuery Miros.Gen.queryRestoresName spied before cur (childState cur X).2.log = cur := by
+theorem C22_name_restored (c : Chart) (hf : ∀ s, c.fall s = false) (spied : Bool) (before cur X : St) :
+    (∃ b r, isIn c cur X = .ok (b, r) ∧
+      Miros.Instr.nameAfterQuery Miros.Gen.queryRestoresName spied before cur r.log = cur) ∧
+    (∃ o r, childState c cur X = .ok (o, r) ∧
+      Miros.Instr.nameAfterQuery Miros.Gen.queryRestoresName spied before cur r.log = cur) := by
   have h : Miros.Gen.queryRestoresName = true := by decide
-  simp [Miros.Instr.nameAfterQuery, h]
+  obtain ⟨l1, e1, _⟩ := isIn_ok c hf cur X
+  obtain ⟨l2, e2, _⟩ := childState_ok c hf cur X
+  exact ⟨⟨_, _, e1, by simp [Miros.Instr.nameAfterQuery, h]⟩,
+    ⟨_, _, e2, by simp [Miros.Instr.nameAfterQuery, h]⟩⟩
+
+/-- a chart without reactions: only the tree matters for the queries -/
+def bare : Chart where
+  react := fun _ _ => .pass
+  init := fun _ => none
+  exitH := fun _ => true
+  depth := 3
+  fall := fun _ => false
 
 /-- witness for the unrepaired code: a spied chart in [3,2,1] asked `is_in([1])` is left
 named after the enclosing state [2,1] -/
 theorem C22_witness_unfixed :
-    Miros.Instr.nameAfterQuery false true [3, 2, 1] [3, 2, 1] (isIn [3, 2, 1] [1]).2.log = [2, 1] := by
-  decide
+    ∃ b r, isIn bare [3, 2, 1] [1] = .ok (b, r) ∧
+      Miros.Instr.nameAfterQuery false true [3, 2, 1] [3, 2, 1] r.log = [2, 1] :=
+  ⟨true, ⟨[3, 2, 1], [3, 2, 1], [⟨[3, 2, 1], .search⟩, ⟨[2, 1], .search⟩]⟩, by decide, by decide⟩
 
 /-! ### non-vacuity -/
-example : (isIn [3, 2, 1] [2, 1]).1 = true := by decide
-example : (isIn [3, 2, 1] [4, 1]).1 = false := by decide
-example : (childState [3, 2, 1] [1]).1 = some [2, 1] := by decide
-example : (childState [3, 2, 1] [3, 2, 1]).1 = some [3, 2, 1] := by decide
-example : (childState [3, 2, 1] [4, 1]).1 = none := by decide
+example : ∃ r, isIn bare [3, 2, 1] [2, 1] = .ok (true, r) := ⟨⟨[3, 2, 1], [3, 2, 1], [⟨[3, 2, 1], .search⟩]⟩, by decide⟩
+example : ∃ r, isIn bare [3, 2, 1] [4, 1] = .ok (false, r) :=
+  ⟨⟨[3, 2, 1], [3, 2, 1], [⟨[3, 2, 1], .search⟩, ⟨[2, 1], .search⟩, ⟨[1], .search⟩]⟩, by decide⟩
+example : ∃ r, childState bare [3, 2, 1] [1] = .ok (some [2, 1], r) :=
+  ⟨⟨[3, 2, 1], [3, 2, 1], [⟨[3, 2, 1], .search⟩, ⟨[2, 1], .search⟩]⟩, by decide⟩
+example : ∃ r, childState bare [3, 2, 1] [3, 2, 1] = .ok (some [3, 2, 1], r) := ⟨⟨[3, 2, 1], [3, 2, 1], []⟩, by decide⟩
+example : ∃ r, childState bare [3, 2, 1] [4, 1] = .ok (none, r) :=
+  ⟨⟨[3, 2, 1], [3, 2, 1], [⟨[3, 2, 1], .search⟩, ⟨[2, 1], .search⟩, ⟨[1], .search⟩]⟩, by decide⟩
+
+/-! ### why `fall = false` is assumed: the loops of `is_in` / `child_state` never end on a
+fall-through state that is not the argument (hsm.py does not check the probe's status there) -/
+
+/-- `bare` with the handler of `[2,1]` lacking its final `else` -/
+def stuck : Chart := { bare with fall := fun s => s == [2, 1] }
+
+example : isIn stuck [3, 2, 1] [1] = .diverge [⟨[3, 2, 1], .search⟩, ⟨[2, 1], .search⟩] := by decide
+example : childState stuck [3, 2, 1] [1] = .diverge [⟨[3, 2, 1], .search⟩, ⟨[2, 1], .search⟩] := by decide
+/-- the fall-through state itself is recognised before it is asked anything -/
+example : isIn stuck [3, 2, 1] [2, 1] = .ok (true, ⟨[3, 2, 1], [3, 2, 1], [⟨[3, 2, 1], .search⟩]⟩) := by decide
 
 end Miros.Props.C22
